@@ -40,6 +40,9 @@ def tasks(tier):
         for c in b["columns"]:
             for r in b["rows"]:
                 out.append({"name": "d%d-c%d-r%d" % (d, c, r), "params": {"d": d, "c": c, "r": r, "pcap": b["pad_cap"], "wrap": None}, "weight": c * r})
+    # a text index column (time stamps, labels): curves without a column are still NaN *floats*
+    for d, c in ((2, 1), (3, 2), (3, 1), (2, 2)):
+        out.append({"name": "text-index-d%d-c%d-r2" % (d, c), "params": {"d": d, "c": c, "r": 2, "pcap": b["pad_cap"], "wrap": None, "text_index": True}, "weight": c * 2})
     for c, r in b["wrapped"]:
         out.append({"name": "wrapped-c%d-r%d" % (c, r), "params": {"d": c, "c": c, "r": r, "pcap": b["pad_cap"], "wrap": True}, "weight": c * r})
     return out
@@ -61,6 +64,7 @@ def harness(ns, params):
 
     def run():
         core.OPTS["concretize"] = True
+        DF.TEXT_INDEX[0] = bool(params.get("text_index"))
         crlf = fresh_bool("crlf")
         fnl = fresh_bool("final_newline")
         eng = fresh_bool("engine_numpy")
@@ -96,7 +100,7 @@ def harness(ns, params):
             core.witness("data-section-followed-by-another-section", afc != "last" and c != d)
             sect = DF.build_data_section(r, c, pcap, afc, ekc, epc, crlf_c, fnl_c)
         dlines = [l for l in sect[1:]]
-        inputs = {"d": d, "c": c, "r": r, "wrap": bool(wrap), "split": split, "crlf": crlf, "final_newline": fnl, "engine_numpy": eng, "data_lines": dlines, "names": names[1:], "extra_kind": ek, "extra_pos": ep, "after": af}
+        inputs = {"d": d, "c": c, "r": r, "wrap": bool(wrap), "split": split, "crlf": crlf, "final_newline": fnl, "engine_numpy": eng, "data_lines": dlines, "names": names[1:], "extra_kind": ek, "extra_pos": ep, "after": af, "text_index": bool(params.get("text_index"))}
         cx = core.ctx()
         cx.inputs = inputs
         apply_exclusions(inputs)
@@ -122,7 +126,7 @@ def harness(ns, params):
             obl.append(("number-of-curves", len(cols) == n))
             if len(cols) == n:
                 obl.append(("cells-bound-to-their-column", DF.same_cols(cols[:c], exp)))
-                obl.append(("curves-without-column-are-NaN", all(len(x) == r and all(v != v for v in x) for x in cols[c:])))
+                obl.append(("curves-without-column-are-NaN", all(len(x) == r and all(isinstance(v, float) and v != v for v in x) for x in cols[c:])))
                 obl.append(("declared-curves-keep-order-and-metadata", z.And([z.And(SymStr.lift(cvs[k].original_mnemonic).eq_expr(names[k]), cvs[k].unit == ("M" if k == 0 else "U%d" % k), cvs[k].descr == "c%d" % k) for k in range(d)])))
                 obl.append(("surplus-columns-are-unnamed-curves", all(cvs[k].original_mnemonic == "" for k in range(d, n))))
         core.oblige_all(obl)
@@ -136,6 +140,7 @@ def replay(i):
     import lasio
 
     d, c, r, wrap = i["d"], i["c"], i["r"], i["wrap"]
+    DF.TEXT_INDEX[0] = bool(i.get("text_index"))
     hdr = DF.header(c, declared=d, wrap="YES" if wrap else "NO")
     names = ["DEPT"] + list(i.get("names", []))
     k = 1
@@ -163,7 +168,7 @@ def replay(i):
         else:
             if not DF.same_cols(cols[:c], exp):
                 problems.append("columns read as %r, file holds %r" % (cols[:c], exp))
-            if not all(len(x) == r and all(v != v for v in x) for x in cols[c:]):
+            if not all(len(x) == r and all(isinstance(v, float) and v != v for v in x) for x in cols[c:]):
                 problems.append("curves without a column are %r" % (cols[c:],))
             if not all(las.curves[k].original_mnemonic == names[k] and las.curves[k].unit == ("M" if k == 0 else "U%d" % k) and las.curves[k].descr == "c%d" % k for k in range(d)):
                 problems.append("declared curves changed: %r" % ([(cv.original_mnemonic, cv.unit, cv.descr) for cv in las.curves],))
